@@ -414,6 +414,17 @@ func graphs(quick bool) []trav.GraphSpec {
 	for _, t := range trav.GraphTrees(3, trav.GraphLeaves(true)[1:]) {
 		out = append(out, trav.GraphSpec{Tree: t})
 	}
+	// null and boolean leaves: an entry that exists and holds null is not a missing entry
+	for _, t := range trav.GraphTrees(3, []ref.Val{ref.Null(), ref.Bool(false)}) {
+		if t.K == ref.KNull {
+			// a tree that is only the null singleton: its prototype's builder panics by its documented
+			// contract (datamodel/unit.go), so there is nothing a transform could rebuild it with
+			continue
+		}
+		for _, cuts := range trav.CutSets(t, 1, true) {
+			out = append(out, trav.GraphSpec{Tree: t, Cuts: cuts})
+		}
+	}
 	// records in a list: the same selector step meets several nodes in one walk
 	rec := func(k int64) ref.Val {
 		return ref.Map(ref.E("a", ref.Int(k)), ref.E("b", ref.Int(k+1)), ref.E("c", ref.Int(k+2)))
